@@ -10,8 +10,9 @@
 (*   - visit_dir begins with `visited_dirs.insert(canonical_path)`: an       *)
 (*     activation for a real directory that has been entered before returns  *)
 (*     at once (no entry loop, no `leave`);                                  *)
-(*   - depth = canonical_depth(dir) saturating_sub canonical_depth(root) + 1 *)
-(*     (a directory behind a link may lie above or beside the root).         *)
+(*   - the level of a directory's entries is handed down: 1 for the root,    *)
+(*     one more for every directory or link target entered from it (the     *)
+(*     queue of the breadth-first mode holds it next to the path).          *)
 (*                                                                           *)
 (* One root, no LIMIT (those are Walker's).  TLC checks, for every world     *)
 (* with links (to files, directories, ancestors, each other, themselves,     *)
@@ -24,7 +25,7 @@ CONSTANTS MaxN, MaxLinks, Extra
 
 VARIABLES w, root, win, dfs, follow,
           stack,    \* activations of visit_dir that run their entry loop, innermost last
-          queue,    \* dir_queue: entries (node ids) waiting to be entered
+          queue,    \* dir_queue: <<entry (node id), level of its entries>> waiting to be entered
           visited,  \* visited_inodes
           vdirs,    \* visited_dirs (real directories)
           entered,  \* history: real directories whose entry loop was started, in order
@@ -42,8 +43,6 @@ WorldsN(n) == { MkWorld(n, x[1], x[2], x[3]) :
                         ValidShape(n, y[1], y[2], y[3]) } }
 Worlds == UNION { WorldsN(n) : n \in 1 .. MaxN }
 
-CanonDepth(d) == IF d = 0 THEN 0 ELSE DepthOf(w, d)
-SatSub(a, b) == IF a > b THEN a - b ELSE 0
 Res(n) == Resolve(w, n, 8)
 
 Init ==
@@ -57,20 +56,20 @@ Init ==
 Top == stack[Len(stack)]
 Pop == SubSeq(stack, 1, Len(stack) - 1)
 SetTop(f) == [stack EXCEPT ![Len(stack)] = f]
-Frame(d, pq) == [dir |-> d, depth |-> SatSub(CanonDepth(d), CanonDepth(root)) + 1, unread |-> ChildrenOf(w, d), pq |-> pq, draining |-> FALSE]
+Frame(d, pq, depth) == [dir |-> d, depth |-> depth, unread |-> ChildrenOf(w, d), pq |-> pq, draining |-> FALSE]
 (* the beginning of visit_dir for the path of node n (the root, a directory entry, or the first hop of a link): *)
 (* refused(d) - the real directory has been entered before; otherwise a new activation on base *)
 Refused(d) == d \in vdirs                      \* (recorded and checked with and without the option: roots may differ in it)
-Activate(base, n, pq) ==
+Activate(base, n, pq, depth) ==
   LET d == Res(n) IN
-  /\ stack' = IF Refused(d) THEN base ELSE Append(base, Frame(d, pq))
+  /\ stack' = IF Refused(d) THEN base ELSE Append(base, Frame(d, pq, depth))
   /\ vdirs' = vdirs \cup {d}
   /\ entered' = IF Refused(d) THEN entered ELSE Append(entered, d)
 
 Start ==
   /\ pc = "start"
   /\ visited' = {root}
-  /\ Activate(<<>>, root, TRUE)
+  /\ Activate(<<>>, root, TRUE, 1)
   /\ pc' = "walk"
   /\ UNCHANGED <<w, root, win, dfs, follow, queue, out>>
 
@@ -91,9 +90,9 @@ PickOne(e, how) ==
         /\ visited' = IF cand THEN visited \cup {e} ELSE visited
         /\ how = IF ~go THEN "no" ELSE IF dfs THEN "dfs" ELSE "enqueue"
         /\ IF go /\ dfs
-           THEN Activate(rest, e, FALSE) /\ queue' = queue
+           THEN Activate(rest, e, FALSE, f.depth + 1) /\ queue' = queue
            ELSE /\ stack' = rest /\ UNCHANGED <<vdirs, entered>>
-                /\ queue' = IF go THEN Append(queue, e) ELSE queue
+                /\ queue' = IF go THEN Append(queue, <<e, f.depth + 1>>) ELSE queue
   /\ UNCHANGED <<w, root, win, dfs, follow, pc>>
 
 PickEntry == \E e \in UNION { f.unread : f \in { stack[k] : k \in 1 .. Len(stack) } } : \E how \in {"dfs", "enqueue", "no"} : PickOne(e, how)
@@ -108,7 +107,7 @@ EndOfDir ==
 Dequeue ==
   /\ pc = "walk" /\ stack # <<>> /\ Top.draining
   /\ IF queue # <<>>
-     THEN /\ Activate(stack, Head(queue), FALSE)
+     THEN /\ Activate(stack, Head(queue)[1], FALSE, Head(queue)[2])
           /\ queue' = Tail(queue)
      ELSE /\ stack' = Pop /\ UNCHANGED <<queue, vdirs, entered>>
   /\ UNCHANGED <<w, root, win, dfs, follow, visited, out, pc>>
@@ -132,7 +131,11 @@ OnlyBehind == Range(out) \subseteq (IF follow THEN Behind(w, root) ELSE Listed(w
 ExactAtEnd == (pc = "done" /\ Unrestricted) => Range(out) = (IF follow THEN Behind(w, root) ELSE Listed(w, root, 0, 0))
 (* without the option the window is Walker's: C01 *)
 PlainAtEnd == (pc = "done" /\ ~follow) => Range(out) = Listed(w, root, win[1], win[2])
-(* with the option and only a lower bound, nothing that is behind the root at that canonical level or deeper is lost *)
+(* with the option and a window: every entry that each route reaches inside the window is listed, and nothing is listed that no route reaches inside it *)
+WindowAtEnd == (pc = "done" /\ follow) =>
+   /\ { n \in Behind(w, root) : DueInWindow(w, root, n, win[1], win[2], 8) } \subseteq Range(out)
+   /\ Range(out) \subseteq { n \in Behind(w, root) : AdmissibleInWindow(w, root, n, win[1], win[2], 8) }
+(* with the option and only a lower bound, every reachable directory is entered *)
 EnteredAtEnd == (pc = "done" /\ follow /\ win[2] = 0) => Range(entered) = Reachable(w, root)
 QueueOnlyInBfs == dfs => queue = <<>>
 Terminates == <>(pc = "done")
